@@ -249,12 +249,27 @@ XalanOutputStream::setOutputEncoding(const XalanDOMString&  theEncoding)
 
     XalanTranscodingServices::eCode     theCode = XalanTranscodingServices::OK;
 
-    if (XalanTranscodingServices::encodingIsUTF16(theEncoding) == true)
+    // We can only write the code units through when the encoding has
+    // the byte order of the machine we're running on.  UTF-16 without
+    // a byte order starts with a byte order mark, so any order is OK.
+    const XalanDOMChar  theByteOrderTest = 1;
+
+    const bool  fLittleEndian =
+        *reinterpret_cast<const char*>(&theByteOrderTest) == 1;
+
+    if (compareIgnoreCaseASCII(theEncoding, XalanTranscodingServices::s_utf16String) == 0 ||
+        compareIgnoreCaseASCII(
+            theEncoding,
+            fLittleEndian == true ?
+                XalanTranscodingServices::s_utf16LEString :
+                XalanTranscodingServices::s_utf16BEString) == 0)
     {
         m_writeAsUTF16 = true;
     }
     else
     {
+        m_writeAsUTF16 = false;
+
         m_transcoder = XalanTranscodingServices::makeNewTranscoder(
                     getMemoryManager(),
                     theEncoding,
